@@ -29,9 +29,11 @@ d0cc302 C11 C11.rows
 a3cb032 C17 C17.own
 fdf1794 C14 C14.errflow
 288316b C17 C17.reset
-c4d33bf C08 C08.reposition
+bb6a35c+c4d33bf C08 C08.reposition
 90d470c C05 C05.boundary
 a084387 C20 C20.result
+bb6a35c C08 C08.position
+c15ed5e C08 C08.reset
 LIST
 git -C /repo worktree remove --force $WT
 rm -rf /tmp/fixcheck-ev
